@@ -178,6 +178,11 @@ fn sched_value(s: usize, i: usize) -> f64 {
     }
 }
 fn sweep_case(kind: Kind, n: usize, s: usize, reset_phase: usize) -> Case {
+    sweep_case_clone(kind, n, s, reset_phase, (3 * n + 3) / 2)
+}
+
+/// `clone_at`: the call index after which the instance is replaced by its clone (and serialized)
+fn sweep_case_clone(kind: Kind, n: usize, s: usize, reset_phase: usize, clone_at: usize) -> Case {
     let calls = 3 * n + 3;
     let mut ops = Vec::with_capacity(calls + 4);
     for i in 0..calls {
@@ -187,7 +192,7 @@ fn sweep_case(kind: Kind, n: usize, s: usize, reset_phase: usize) -> Case {
         let v = |o: usize| sched_value(s, i * 5 + o);
         // five independent fields: bars violate low <= close <= high freely
         ops.push(TOp::Next(Inp { bar: RawBar { o: v(0), h: v(1), l: v(2), c: v(3), v: v(4) }, scalar: i % 3 != 2 }));
-        if i == calls / 2 {
+        if i == clone_at {
             ops.push(TOp::CloneSwap);
             ops.push(TOp::Serialize);
         }
@@ -246,6 +251,21 @@ pub fn run(g: &mut Global) {
             let kind = ALL_KINDS[(r / 64) as usize];
             let ph = if ph > 2 * n + 3 { 0 } else { ph };
             sweep_case(kind, n, s, ph)
+        },
+        &check,
+    );
+    // the clone taken at every phase of the ring (fresh, warming up, exactly full, wrapped), then continued
+    g.exhaustive(
+        "sweep_clone_phase",
+        22 * 64 * 2 * 67,
+        &|i| {
+            let ph = (i % 67) as usize;
+            let r = i / 67;
+            let s = [0usize, 5][(r % 2) as usize];
+            let r = r / 2;
+            let n = (r % 64) as usize + 1;
+            let kind = ALL_KINDS[(r / 64) as usize];
+            sweep_case_clone(kind, n, s, 0, ph.min(3 * n + 2))
         },
         &check,
     );
